@@ -16,6 +16,7 @@ import RSVerif.Proofs.FlatEngineSpec
 import RSVerif.Proofs.SrcEngineSpec
 import RSVerif.Proofs.SrcKernelSpec
 import RSVerif.Proofs.SrcShardsSpec
+import RSVerif.Proofs.SrcGlueSpec
 
 namespace RS
 open ShardAlg
@@ -279,5 +280,25 @@ theorem source_shards_are_flat_model (f : Flat) (hs : f.data.size < 184467440737
    (src_zero f hs a b).1, (src_zero f hs a b).2, (src_split_at_mut f hs a).1,
    fun hi => ⟨(src_index f hs a hi).1, (src_index f hs a hi).2.1, (src_index f hs a hi).2.2.1,
      (src_index f hs a hi).2.2.2.1⟩⟩
+
+open RS.SrcG RS.RustG in
+/-- the ENTRY POINTS of the engines in today's source (`Gen/SrcGlue.lean`): `Engine::{fft, ifft, mul, eval_poly}` of
+    Ssse3 / Avx2 / Neon hand all their arguments, in order, to the `#[target_feature]` function of their own ISA, which
+    hands them on to the safe loop nest (`source_engine_loops_are_model`), the chunk kernel (`source_kernels_agree`)
+    or the generic `utils::eval_poly` (C01 `source_decoder_helpers_are_model`); NoSimd calls the same loop nests
+    directly; the provided `Engine::eval_poly` is `utils::eval_poly` — so all engines evaluate the same polynomial -/
+theorem source_engine_entry_points :
+    (∀ e ∈ ["ssse3", "avx2", "neon"], ∀ E ∈ [if e = "ssse3" then "Ssse3" else if e = "avx2" then "Avx2" else "Neon"],
+      holds (E ++ "::fft") 5 (isMethodDeleg isSelf ("fft_private_" ++ e) 5) = true ∧
+      holds (E ++ "::ifft") 5 (isMethodDeleg isSelf ("ifft_private_" ++ e) 5) = true ∧
+      holds (E ++ "::mul") 2 (isMethodDeleg isSelf ("mul_" ++ e) 2) = true ∧
+      holds (E ++ "::eval_poly") 2 (isCallDeleg ("Self::eval_poly_" ++ e) 2) = true ∧
+      holds (E ++ "::fft_private_" ++ e) 5 (isMethodDeleg isSelf "fft_private" 5) = true ∧
+      holds (E ++ "::ifft_private_" ++ e) 5 (isMethodDeleg isSelf "ifft_private" 5) = true ∧
+      holds (E ++ "::eval_poly_" ++ e) 2 (isCallDeleg "utils::eval_poly" 2) = true) ∧
+    holds "NoSimd::fft" 5 (isMethodDeleg isSelf "fft_private" 5) = true ∧
+    holds "NoSimd::ifft" 5 (isMethodDeleg isSelf "ifft_private" 5) = true ∧
+    holds "Engine::eval_poly" 2 (isCallDeleg "utils::eval_poly" 2) = true :=
+  engine_entry_points_delegate
 
 end RS
